@@ -63,6 +63,10 @@ def main():
         for (name, edits) in MUTANTS[pid]:
             if names and name not in names:
                 continue
+            if record and os.environ.get('MUT_RESUME') and os.path.exists(rp):
+                prev = json.load(open(rp)).get(pid, {}).get(name)
+                if prev and not prev['result'].startswith('ERROR'):
+                    continue
             res, dt = run(pid, name, edits, tier)
             print('%-4s %-34s %6.1fs  %s' % (pid, name, dt, res), flush=True)
             if record:
